@@ -11,7 +11,7 @@ import random
 
 import numpy as np
 
-from common import (run_tlc, tlc_must_pass, printed_json, validate_events, Infra, isolated_many)
+from common import (run_tlc, tlc_must_pass, printed_json, validate_events, Infra, isolated, isolated_many)
 from lib import Lib, Buf
 import vecops
 
@@ -110,6 +110,120 @@ def drive_b(rec, part, count):
     rec.data["events"] = events
 
 
+def drive_volume(rec, quick):
+    """Large objects (2^22 coefficients and more: 32 MiB per operand), contiguous limbs, every operand at its own alignment class
+    (0, 8, 16, 24 bytes past a 32-byte boundary).  The limb-wise entry points - coefficient and big-coefficient arithmetic, DFT, inverse DFT,
+    scalar product - must give, limb by limb, the bytes that the same call gives on that limb alone in a small buffer."""
+    import numpy as np
+    from lib import Buf, FFT64, NTT120, MASK_NONE, MASK_GENERIC
+    rng = random.Random(rec.seed * 4099 + 17)
+    L = Lib.get()
+    shapes = [(65536, 70), (4096, 1100), (256, 17000)] if not quick else [rng.choice([(65536, 70), (4096, 1100)])]
+    ok = 0
+    for (n, limbs) in shapes:
+        for mk, mt, mask in (("fft64", FFT64, MASK_NONE), ("fft64-generic", FFT64, MASK_GENERIC)):
+            mod = L.module(n, mt, mask)
+            L.set_cpu_mask(MASK_NONE)
+            offs = [0, 8, 16, 24, 32, 40]
+            A = Buf(8 * n * limbs, off=rng.choice(offs), fill=0x11)
+            B = Buf(8 * n * limbs, off=rng.choice(offs), fill=0x22)
+            g = np.random.default_rng(rec.seed + n)
+            A.i64[:] = g.integers(-(1 << 40), 1 << 40, n * limbs, dtype=np.int64)
+            B.i64[:] = g.integers(-(1 << 40), 1 << 40, n * limbs, dtype=np.int64)
+            sample = sorted(set([0, 1, limbs // 2, limbs - 2, limbs - 1] + [rng.randrange(limbs) for _ in range(6)] +
+                                [(1 << 22) // n - 1, (1 << 22) // n, (1 << 22) // n + 1]))
+            sample = [i for i in sample if 0 <= i < limbs]
+
+            def limb_of(buf, i, nbytes):
+                return buf.u8[i * nbytes:(i + 1) * nbytes]
+
+            def check(label, big_out, nbytes, one):
+                """big_out: Buf holding `limbs` results of nbytes each; one(i) -> bytes of the single-limb call"""
+                nonlocal ok
+                for i in sample:
+                    exp = one(i)
+                    if exp is None or not np.array_equal(limb_of(big_out, i, nbytes), exp):
+                        rec.violation("%s[%s] N=%d, %d limbs at once: limb %d differs from the same call on that limb alone" % (label, mk, n, limbs, i),
+                                      {"op": label, "N": n, "limbs": limbs, "limb": i})
+                        return
+                if not (big_out.canaries_ok() and A.canaries_ok() and B.canaries_ok()):
+                    rec.violation("%s[%s] N=%d, %d limbs at once: write outside a buffer" % (label, mk, n, limbs), {"op": label})
+                    return
+                ok += 1
+
+            # coefficient arithmetic
+            for op in ("copy", "negate", "add", "sub", "rotate", "automorphism"):
+                label = "vec_znx_" + op
+                if not rec.progress("%s[%s] N=%d limbs=%d (volume)" % (label, mk, n, limbs)):
+                    continue
+                R = Buf(8 * n * limbs, off=rng.choice(offs), fill=0x6B)
+                p = rng.choice([1, 3, n + 1, -5]) | (1 if op == "automorphism" else 0)
+                vecops.call_op(L, mod, op, p, R, limbs, n, A, limbs, n, B, limbs, n)
+                rec.case(("volume", op, mk, n))
+
+                def one(i, op=op, p=p):
+                    r1, a1, b1 = Buf(8 * n, fill=0x6B), Buf(8 * n), Buf(8 * n)
+                    a1.u8[:] = limb_of(A, i, 8 * n)
+                    b1.u8[:] = limb_of(B, i, 8 * n)
+                    vecops.call_op(L, mod, op, p, r1, 1, n, a1, 1, n, b1, 1, n)
+                    return r1.u8.copy()
+                check(label, R, 8 * n, one)
+            # DFT, scalar product, inverse DFT (both forms)
+            nb = L.call("bytes_of_vec_znx_dft", mod, 1)
+            D = Buf(nb * limbs, off=rng.choice(offs), fill=0x33)
+            small = Buf(8 * n * limbs, off=rng.choice(offs), fill=0)
+            small.i64[:] = g.integers(-(1 << 20), 1 << 20, n * limbs, dtype=np.int64)
+            if rec.progress("vec_znx_dft[%s] N=%d limbs=%d (volume)" % (mk, n, limbs)):
+                L.call("vec_znx_dft", mod, D, limbs, small, limbs, n)
+                rec.case(("volume", "dft", mk, n))
+
+                def one_dft(i):
+                    d1, a1 = Buf(nb, fill=0x33), Buf(8 * n)
+                    a1.u8[:] = limb_of(small, i, 8 * n)
+                    L.call("vec_znx_dft", mod, d1, 1, a1, 1, n)
+                    return d1.u8.copy()
+                check("vec_znx_dft", D, nb, one_dft)
+            pp = Buf(L.call("bytes_of_svp_ppol", mod), fill=0x44)
+            s1 = Buf(8 * n)
+            s1.i64[:] = g.integers(-8, 9, n, dtype=np.int64)
+            L.call("svp_prepare", mod, pp, s1)
+            D2 = Buf(nb * limbs, off=rng.choice(offs), fill=0x33)
+            if rec.progress("svp_apply_dft[%s] N=%d limbs=%d (volume)" % (mk, n, limbs)):
+                L.call("svp_apply_dft", mod, D2, limbs, pp, small, limbs, n)
+                rec.case(("volume", "svp", mk, n))
+
+                def one_svp(i):
+                    d1, a1 = Buf(nb, fill=0x33), Buf(8 * n)
+                    a1.u8[:] = limb_of(small, i, 8 * n)
+                    L.call("svp_apply_dft", mod, d1, 1, pp, a1, 1, n)
+                    return d1.u8.copy()
+                check("svp_apply_dft", D2, nb, one_svp)
+            ng = L.call("bytes_of_vec_znx_big", mod, 1)
+            tmp = Buf(L.call("vec_znx_idft_tmp_bytes", mod), fill=0x55)
+            for form in ("vec_znx_idft", "vec_znx_idft_tmp_a"):
+                if not rec.progress("%s[%s] N=%d limbs=%d (volume)" % (form, mk, n, limbs)):
+                    continue
+                G = Buf(ng * limbs, off=rng.choice(offs), fill=0x66)
+                d0 = D.snapshot()
+
+                def one_idft(i, form=form):
+                    g1, d1 = Buf(ng, fill=0x66), Buf(nb)
+                    d1.u8[:] = d0[i * nb:(i + 1) * nb]
+                    if form == "vec_znx_idft":
+                        L.call(form, mod, g1, 1, d1, 1, tmp)
+                    else:
+                        L.call(form, mod, g1, 1, d1, 1)
+                    return g1.u8.copy()
+                if form == "vec_znx_idft":
+                    L.call(form, mod, G, limbs, D, limbs, tmp)
+                else:
+                    L.call(form, mod, G, limbs, D, limbs)
+                rec.case(("volume", form, mk, n))
+                check(form, G, ng, one_idft)
+            L.delete_module(mod)
+    rec.data["ok"] = ok
+
+
 def model_check(chk, tag):
     quick = chk.tier == "quick"
     r = run_tlc("LimbLoops", ("LimbLoops_quick.cfg" if quick else "LimbLoops_thorough.cfg"), workers=16, coverage=True, name=tag + "-mc", timeout=1800)
@@ -144,6 +258,9 @@ def run(chk, replay=None):
         chk.add_tlc(r, "trace validation")
     chk.traces += len(events) - len(bad)
     chk.cov["events_validated"] = len(events)
+    dv = isolated(chk, "large volumes: every limb as on its own", drive_volume, (quick,), timeout=1800)
+    chk.traces += dv["ok"] if dv else 0
+    chk.cov["volume_calls_matching_limbwise"] = dv["ok"] if dv else 0
     chk.cov["exhaustive"] = True
     chk.cov["box"] = "sizes 0..3 x strides {N, N+delta, 2N} x aliasing {none, res=a, res=b, a=b, all} x 16 operations"
     chk.cov["rule"] = "one case = (direction, op, module kind, sizes, stride kinds, alias, N class); non-trivial when res_size > 0"
